@@ -34,7 +34,7 @@ CHECKS = {
 ENUM_NOTE = ("trusted base: the reference predicate/table written from the statement and the docs; the "
              "enumeration bound stated in the evidence; every case is executed on the real code")
 CHECKS.update({
-    "C06": ("model_checking", "3 C06", "bounded-exhaustive enumeration of connection multigraphs (<=3 simulators, 4 group placements, <=4 connections of kind plain/shifted/weak/weak+shifted/async, up to renaming) through world.run(), each graph also decided under several work-list orders of the cycle check; reference = simple-cycle enumeration",
+    "C06": ("model_checking", "3 C06", "bounded-exhaustive enumeration of connection multigraphs (<=3 simulators, 4 group placements, <=4 connections of kind plain/shifted/weak/weak+shifted/async, up to renaming) through world.run(), each graph also decided under several work-list orders of the cycle check; small graphs additionally with one refused connect() call between each ordered pair; reference = simple-cycle enumeration",
             "every enumerated graph (about 210 000 in the quick tier: <=3 simulators/<=4 connections up to renaming, async families, a 2+2-simulator motif family): ScenarioError before any step iff the reference finds an unresolved cycle, the named cycle is real, accepted scenarios run to completion", ENUM_NOTE),
     "C08": ("model_checking", "3 C08", "bounded-exhaustive enumeration of TieredInterval/TieredTime values of every shape (length<=3, tiers 0..2) and evaluation of the order/action/associativity laws with the real operators",
             "all ordered pairs / triples within the bound satisfy trichotomy, transitivity, monotone action, associativity", ENUM_NOTE),
@@ -54,7 +54,7 @@ FAULT_NOTE = ("trusted base: virtual loop, stubs, the in-memory stream transport
               "buffered silently' are explored); one fault per run; real sockets/processes only in "
               "findings/realproc (demonstration, not part of the exhaustive claim)")
 CHECKS.update({
-    "C13": ("fault_enumeration", "3 C13", "fault enumeration inside the schedule exploration: every malformed reply value x every simulator x every step index of 4 topologies, all reply-delivery schedules with <=1 early delivery, local and in-memory remote transport",
+    "C13": ("fault_enumeration", "3 C13", "fault enumeration inside the schedule exploration: every malformed reply value (incl. numpy scalars and bool) x every simulator x every step index of 6 topologies, all reply-delivery schedules with <=1 early delivery, local and in-memory remote transport",
             "every malformed reply aborts run() with an error naming the simulator, which is not stepped again; steps of other simulators begun afterwards still satisfy the step-set and data-flow monitors", FAULT_NOTE),
     "C14": ("fault_enumeration", "3 C14", "crash-point enumeration inside the schedule exploration: every request index of every simulator x {handler raises (four exception types), connection closed, process dies mid-request, process dies while idle, process dies with a request of its own outstanding, finalize raises} x {local, in-memory remote} x {debug} x current/old API x all schedules with <=1 (thorough <=2) early deliveries, timer-vs-reply races included",
             "run() never hangs after a fault, every other simulator gets exactly one stop/finalize, loop closed, no mosaik task or channel left (known finding F10 apart)", FAULT_NOTE),
